@@ -16,6 +16,7 @@ are the chunk commands; `wireIds`, `sentOf` project a log to the request ids / c
 packets on the wire.
 -/
 import CamVerif.Proofs.C06Ops
+import CamVerif.Proofs.C06Open
 namespace CamVerif.C06
 open CamVerif CamVerif.Control CamVerif.Spec.Conf
 open CamVerif.Spec.GenCP (decodeCmd CmdFields CmdBody)
@@ -399,7 +400,108 @@ theorem footprint_write (p : Profile) (lim : Limits) (plan : Nat → Nat) (ms t 
   have := C09.decode_serialize p (.writeMem c) id (.writeMem _ hb) hid'
   simpa only [C09.fields, C09.body, Spec.GenCP.scdLenOf] using this
 
+/-! ## 6. open negotiates -/
+
+/-- **open_negotiates**: take ANY closed handle (whatever configuration an earlier connection
+left behind, ABRM capability cached or not, any u16 request id, any buffer) and any transport
+that is a conforming device with limits `lim` (at least 24 / 20 bytes: the bootstrap commands
+and their acknowledges must fit) whose control requests succeed (`CtlOk`) and whose bootstrap
+registers (`Boot`) advertise exactly those limits and the response time `T`.  Then `open`
+succeeds and
+* the handle is `Ready` for `lim` — open, `maximum_cmd_length = lim.maxCmd`,
+  `maximum_ack_length = lim.maxAck`, nothing queued — so `read_exact`, `write_exact` and all
+  other C06 theorems apply to the state AFTER `open`; `timeout_duration = T`, the retry count is
+  untouched, the device memory unchanged;
+* the log is exactly: claim, SET_HALT IN/OUT (with the timeout in force before), CLEAR_HALT
+  IN/OUT, then the run of the bootstrap transactions `bootSteps` — ONE ReadMem command per
+  register (capability only while uncached; SBRM address, U3VCP capability, response time,
+  maximum command length, maximum acknowledge length), whatever limits the previous connection
+  had negotiated (the initial 128/128 are in force again), with consecutive request ids
+  continuing from the handle's `next_req_id`. -/
+theorem open_negotiates (hc : Conforming dev view lim plan ms) (hk : CtlOk dev view)
+    (p : Profile) (s : St σ) (T sbrm : Nat) (hboot : Boot (view s.d).mem lim T sbrm)
+    (hclosed : s.h.opened = false) (hid : s.h.nextReqId < 2 ^ 16)
+    (hplan : ∀ i, plan i < s.h.cfg.retry) (hcmd : 24 ≤ lim.maxCmd) (hack : 20 ≤ lim.maxAck)
+    (hms : ms < 2 ^ 16) :
+    ∃ s', Control.open dev p s = (s', .ok ()) ∧
+      Ready view s' lim plan ms ∧ s'.h.cfg.timeoutMs = T ∧ s'.h.cfg.retry = s.h.cfg.retry ∧
+      (view s'.d).mem = (view s.d).mem ∧
+      s'.logRev = (runEvents plan ms s.h.cfg.xfer
+          (bootSteps (view s.d).mem sbrm s.h.abrm.isSome)
+          ⟨s.h.nextReqId, s.h.bufLen, (view s.d).txn⟩).1.reverse ++
+        (openCtlEvents s.h.cfg.xfer ++ s.logRev) ∧
+      sentOf (runEvents plan ms s.h.cfg.xfer (bootSteps (view s.d).mem sbrm s.h.abrm.isSome)
+          ⟨s.h.nextReqId, s.h.bufLen, (view s.d).txn⟩).1 =
+        serializeFrom (bootSteps (view s.d).mem sbrm s.h.abrm.isSome) s.h.nextReqId ∧
+      s'.h.nextReqId = (s.h.nextReqId +
+        (bootSteps (view s.d).mem sbrm s.h.abrm.isSome).length) % 2 ^ 16 := by
+  obtain ⟨s', hs', hcfg, hop, _, hid', hm, hq, hl, hp⟩ :=
+    open_conforming hc hk p s T sbrm hboot hclosed hid hplan hcmd hack hms
+  refine ⟨s', hs', ⟨hq, hop, by rw [hcfg], by rw [hcfg], hid', hms, by rw [hcfg]; exact hplan⟩,
+    by rw [hcfg], by rw [hcfg], hm, hl, sentOf_runEvents .., ?_⟩
+  have h := congrArg Prog.id hp
+  simp only at h
+  rw [h]
+  rcases runEvents_final plan ms s.h.cfg.xfer (bootSteps (view s.d).mem sbrm s.h.abrm.isSome)
+    ⟨s.h.nextReqId, s.h.bufLen, (view s.d).txn⟩ with h2 | h2
+  · exact h2
+  · exfalso
+    simp only [bootSteps] at h2
+    split at h2 <;> simp at h2
+
+/-- **re-open renegotiates**: closing an open handle (whatever it had negotiated — its old
+limits are NOT assumed to be the device's) and opening it again against a conforming device
+leaves it `Ready` for the limits the device advertises now, with the request ids continuing
+(`close` sends nothing and keeps `next_req_id`). -/
+theorem reopen_renegotiates (hc : Conforming dev view lim plan ms) (hk : CtlOk dev view)
+    (p : Profile) (s : St σ) (T sbrm : Nat) (hboot : Boot (view s.d).mem lim T sbrm)
+    (hopen : s.h.opened = true) (hid : s.h.nextReqId < 2 ^ 16)
+    (hplan : ∀ i, plan i < s.h.cfg.retry) (hcmd : 24 ≤ lim.maxCmd) (hack : 20 ≤ lim.maxAck)
+    (hms : ms < 2 ^ 16) :
+    (close dev s).2 = .ok () ∧ (close dev s).1.h.opened = false ∧
+    (close dev s).1.h.nextReqId = s.h.nextReqId ∧ sentOf (close dev s).1.logRev = sentOf s.logRev ∧
+    ∃ s', Control.open dev p (close dev s).1 = (s', .ok ()) ∧ Ready view s' lim plan ms ∧
+      s'.h.cfg.timeoutMs = T ∧
+      s'.h.nextReqId = (s.h.nextReqId +
+        (bootSteps (view s.d).mem sbrm s.h.abrm.isSome).length) % 2 ^ 16 := by
+  obtain ⟨d1, e1, m1, _, _, _⟩ := ctlReq_ok hk s .release
+  have hnop : ¬ ((!s.h.opened) = true) := by simp [hopen]
+  have hclose : close dev s = (⟨{ s.h with opened := false }, d1,
+      .ctl .release (ctlTimeout s.h.cfg .release) none :: s.logRev⟩, .ok ()) := by
+    simp only [close, if_neg hnop, e1]
+  rw [hclose]
+  refine ⟨rfl, rfl, rfl, by simp [sentOf], ?_⟩
+  obtain ⟨s', hs', hr, hT, _, _, _, _, hidn⟩ :=
+    open_negotiates hc hk p (⟨{ s.h with opened := false }, d1,
+      .ctl .release (ctlTimeout s.h.cfg .release) none :: s.logRev⟩ : St σ) T sbrm
+      (by simp only; rw [m1]; exact hboot) rfl hid hplan hcmd hack hms
+  refine ⟨s', hs', hr, hT, ?_⟩
+  simp only [m1] at hidn
+  exact hidn
+
 /-! ## Non-vacuity -/
+
+/-- a device memory with bootstrap registers: SBRM at 0x10000, advertising 64 / 64 bytes and a
+response time of 5 ms -/
+def bootMem : Nat → UInt8 := fun a =>
+  if a = 0x01D8 + 2 then 1                    -- SBRM address 0x0001_0000
+  else if a = 0x01CC then 5                   -- response time 5 ms
+  else if a = 0x10014 then 64 else if a = 0x10018 then 64 else 0
+
+example : Boot bootMem ⟨64, 64⟩ 5 0x10000 := ⟨by decide, by decide, by decide, by decide, by decide⟩
+
+example : CtlOk (refDev (M := Nat → UInt8) ⟨64, 64⟩ (fun _ => 0) 0) refView := refDev_ctlOk _ _ _
+
+/-- `open` of a fresh handle on the reference device negotiates 64 / 64 / 5 ms with six
+bootstrap commands; closing and re-opening needs five (the capability is cached). -/
+example :
+    let dev := refDev (M := Nat → UInt8) ⟨64, 64⟩ (fun _ => 0) 0
+    let s1 := (Control.open dev .dev ⟨Handle.new, ⟨bootMem, [], 0⟩, []⟩).1
+    let s2 := (Control.open dev .dev (close dev s1).1).1
+    s1.h.cfg = ⟨5, 3, 64, 64⟩ ∧ s1.h.opened = true ∧ s1.h.nextReqId = 6 ∧
+    s2.h.cfg = ⟨5, 3, 64, 64⟩ ∧ s2.h.nextReqId = 11 := by decide +kernel
+
+/-! ## Non-vacuity (read / write) -/
 
 /-- a concrete ready handle over the reference device: limits 64/64, one pending
 acknowledge before every third answer, retry count 3, request id 65535 (about to wrap). -/
